@@ -6,7 +6,7 @@ Oracle  : Warshall closure / literal set comprehensions; snapshot of G before an
 """
 import itertools
 
-from .. import spaces
+from .. import spaces, lib
 from ..refsem import closure
 from ..common import call, chunks
 from ..runner import deadline_passed
@@ -67,14 +67,14 @@ def plan(tier, seed):
 
 
 def snap(G):
-    return (sorted(G._next.keys()), sorted((s, d) for s in G._next for d in G._next[s]))
+    return (sorted(lib.next_map(G).keys()), sorted((s, d) for s in lib.next_map(G) for d in lib.next_map(G)[s]))
 
 
 def check_graph(n, edges, order, acc, tier):
     V = list(order)
     G = DiGraph(V=V, E=list(edges))
     before = snap(G)
-    ids_before = dict((v, id(G._next[v])) for v in G._next)
+    ids_before = lib.adjacency_ids(G)
     case = {'n': n, 'edges': [list(e) for e in edges], 'order': list(order)}
     eset = set(edges)
     if before != (sorted(range(n)), sorted(eset)):
@@ -102,7 +102,7 @@ def check_graph(n, edges, order, acc, tier):
         res2 = call(R.get_reversed_graph)
         if res2[0] != 'ok' or snap(res2[1]) != before:
             bad('reversed-twice', None, before, res2[1:] if res2[0] != 'ok' else snap(res2[1]))
-        if any(R._next[v] is G._next[w] for v in R._next for w in G._next):
+        if any(lib.next_map(R)[v] is lib.next_map(G)[w] for v in lib.next_map(R) for w in lib.next_map(G)):
             bad('reversed-aliases-G', None, None, None)
     # clone
     res = call(G.clone)
@@ -113,7 +113,7 @@ def check_graph(n, edges, order, acc, tier):
         C = res[1]
         if snap(C) != before or type(C) is not DiGraph:
             bad('clone', None, before, snap(C))
-        if any(C._next[v] is G._next[w] for v in C._next for w in G._next) or C._next is G._next:
+        if any(lib.next_map(C)[v] is lib.next_map(G)[w] for v in lib.next_map(C) for w in lib.next_map(G)) or lib.next_map(C) is lib.next_map(G):
             bad('clone-aliases-G', None, None, None)
         # one-step mutator alphabet on the clone, then on G against a second clone
         for (a, b) in [(a, b) for a in range(n + 1) for b in range(n + 1)]:
@@ -178,7 +178,7 @@ def check_graph(n, edges, order, acc, tier):
             if res[0] != 'ok' or set(res[1]) != expr:
                 bad('reach-%s-arg' % form, X, sorted(expr), res[1:] if res[0] != 'ok' else sorted(res[1]))
     after = snap(G)
-    if after != before or dict((v, id(G._next[v])) for v in G._next) != ids_before:
+    if after != before or lib.adjacency_ids(G) != ids_before:
         bad('G-modified', None, before, after)
 
 
@@ -208,8 +208,8 @@ def check_named(n, edges, scheme, acc):
     case = {'n': n, 'edges': [list(e) for e in edges], 'order': list(range(n)), 'names': scheme}
 
     def back(H):
-        return (sorted(inv[repr(v)] for v in H._next),
-                sorted((inv[repr(s)], inv[repr(d)]) for s in H._next for d in H._next[s]))
+        return (sorted(inv[repr(v)] for v in lib.next_map(H)),
+                sorted((inv[repr(s)], inv[repr(d)]) for s in lib.next_map(H) for d in lib.next_map(H)[s]))
     eset = set(edges)
     r = call(G.get_reversed_graph)
     acc.ev(1, 1 if edges else 0)
@@ -236,8 +236,8 @@ def check_named(n, edges, scheme, acc):
     r = call(G.clone)
     if r[0] != 'ok' or back(r[1]) != (list(range(n)), sorted(eset)):
         acc.violation('clone-named', case, sorted(eset), r[1:] if r[0] != 'ok' else back(r[1]))
-    elif not all(any(v is x for x in names) for v in r[1]._next) or \
-            not all(any(d is x for x in names) for v in r[1]._next for d in r[1]._next[v]):
+    elif not all(any(v is x for x in names) for v in lib.next_map(r[1])) or \
+            not all(any(d is x for x in names) for v in lib.next_map(r[1]) for d in lib.next_map(r[1])[v]):
         acc.violation('clone-holds-foreign-node-objects', case, 'the nodes of G', 'copies')
 
 
